@@ -136,12 +136,16 @@ def s2_programs(task):
         alpha = far_alphabet()
         pre = FAR_PREFIX[task['pre']]()
         suffix = [L.align(0x200000), L.label('B'), progs.I('add', rd=5, rs1=6, rs2=7)]
+        # the mirror image: far label FIRST, the far transfers last (backward far references), the same middles in between
+        back_pre = [L.label('B'), progs.I('add', rd=5, rs1=6, rs2=7), L.align(0x200000)]
         if task['first'] is None:
             yield pre + suffix
+            yield back_pre + pre
             return
         progs.closed_programs.stats = {'histories': 0, 'open': 0}
         for names, items in progs.closed_programs(alpha, 3, ['A'], (task['first'],)):
             yield pre + items + suffix
+            yield back_pre + items + pre
         return
     sym = {s[0]: s for s in progs.XFER}[task['ref']]
     for gapn in task['gaps']:
